@@ -92,7 +92,7 @@ func csExplore(c *runCtx, name string, bound int, deadline time.Time, classify c
 	report := func(f zzmc.Failure, early bool) {
 		mu.Lock()
 		defer mu.Unlock()
-		key := f.Msg + fmt.Sprint(f.Choices)
+		key := f.Msg // one replay per distinct failure (the first schedule that shows it); the count of failing executions is in the statistics
 		if seenFail[key] {
 			return
 		}
